@@ -168,6 +168,7 @@ func checkC12(w *World, r *Report) {
 	checkC12Clone(w, r, cf)
 	checkCloneWithCarries(w, r, "C12.5", "route", "scope", "tsr")
 	checkParamsSelector(w, r, "C12.6")
+	checkC12MemoInvalidation(w, r, cf)
 }
 
 type exemption struct {
@@ -678,6 +679,109 @@ func checkParamsSelector(w *World, r *Report, id string) {
 			}
 			ru.Check("read of "+rd.f.Name()+" in "+FuncName(fn), w.InstrPos(rd.u), fmt.Sprintf("dominated by tsr == %v of the same context", want), ok,
 				orDefault(map[bool]string{true: "guarded"}[ok], "no dominating test of the context's tsr flag: the other buffer may be the one describing this request"))
+		}
+	}
+}
+
+// checkC12MemoInvalidation: a lazily filled memo (the parsed query) is computed from another field of the context (the
+// request). Whoever assigns that source field makes the memo describe something else; it has to clear the memo in the
+// same function. (C12.1 checks the memo is nil when a pooled context is handed out; this is the in-request half.)
+func checkC12MemoInvalidation(w *World, r *Report, cf *CtxFlow) {
+	ru := r.Rule("C12.7", "memo invalidation: every function that assigns the context field a lazily filled memo is computed from (cTx.req for the cached query) also assigns nil to the memo of the same context", 3)
+	// memo -> source field, read from the filling method: the stored value derives from a load of another field of the receiver
+	type dep struct{ memo, src *types.Var }
+	var deps []dep
+	for _, m := range w.MethodsOf("cTx") {
+		if len(m.Params) == 0 {
+			continue
+		}
+		recv := ssa.Value(m.Params[0])
+		tested := map[*types.Var]bool{}
+		eachInstr(m, func(in ssa.Instruction) {
+			if iff, ok := in.(*ssa.If); ok {
+				if bo, ok := iff.Cond.(*ssa.BinOp); ok && isNilConst(bo.Y) {
+					if base, f, ok := loadedField(bo.X); ok && stripIface(seeThrough(base)) == recv {
+						tested[f] = true
+					}
+				}
+			}
+		})
+		eachInstr(m, func(in ssa.Instruction) {
+			st, ok := in.(*ssa.Store)
+			if !ok || isNilConst(st.Val) {
+				return
+			}
+			base, f, ok := fieldOfAddr(st.Addr)
+			if !ok || !tested[f] || stripIface(seeThrough(base)) != recv {
+				return
+			}
+			// walk the operands of the stored value back to loads of receiver fields
+			seen := map[ssa.Value]bool{}
+			var walk func(v ssa.Value, d int)
+			walk = func(v ssa.Value, d int) {
+				if v == nil || seen[v] || d > 8 {
+					return
+				}
+				seen[v] = true
+				if b2, f2, ok := loadedField(v); ok && stripIface(seeThrough(b2)) == recv && f2 != f {
+					dup := false
+					for _, x := range deps {
+						if x.memo == f && x.src == f2 {
+							dup = true
+						}
+					}
+					if !dup {
+						deps = append(deps, dep{f, f2})
+					}
+					return
+				}
+				if in2, ok := v.(ssa.Instruction); ok {
+					for _, op := range in2.Operands(nil) {
+						if op != nil && *op != nil {
+							walk(*op, d+1)
+						}
+					}
+				}
+			}
+			walk(st.Val, 0)
+		})
+	}
+	if len(deps) == 0 {
+		r.Unrecognised("C12.7: no memo field with a source field found")
+		return
+	}
+	for _, d := range deps {
+		for _, fn := range w.FoxFuncs() {
+			if isTestHelper(w, fn) {
+				continue
+			}
+			eachInstr(fn, func(in ssa.Instruction) {
+				st, ok := in.(*ssa.Store)
+				if !ok {
+					return
+				}
+				base, f, ok := fieldOfAddr(st.Addr)
+				if !ok || f != d.src || !cf.isCtxPtr(base.Type()) {
+					return
+				}
+				if a, isAlloc := seeThrough(base).(*ssa.Alloc); isAlloc && a.Parent() == fn {
+					// a struct under construction (Clone): the memo of the new struct starts as written there; C12.3/C12.1 cover it
+					return
+				}
+				cleared := false
+				eachInstr(fn, func(in2 ssa.Instruction) {
+					st2, ok := in2.(*ssa.Store)
+					if !ok || !isNilConst(st2.Val) {
+						return
+					}
+					b2, f2, ok := fieldOfAddr(st2.Addr)
+					if ok && f2 == d.memo && sameExpr(seeThrough(b2), seeThrough(base)) && (instrDominates(st, st2) || instrDominates(st2, st)) {
+						cleared = true
+					}
+				})
+				ru.Check("assignment of cTx."+d.src.Name()+" in "+FuncName(fn), w.InstrPos(st), "the same function sets cTx."+d.memo.Name()+" = nil on that context", cleared,
+					orDefault(map[bool]string{true: "memo cleared"}[cleared], "the memo computed from the previous "+d.src.Name()+" stays in place: later reads return values of the old "+d.src.Name()))
+			})
 		}
 	}
 }
